@@ -50,17 +50,25 @@ enum Op {
     DeleteEdge(u64),
     UpdateNode(u64),
     UpdateEdge(u64),
+    /// two keys at once: one repeats the value the entity was created with, one is new
+    UpdateNodeMulti(u64),
+    UpdateEdgeMulti(u64),
 }
 fn alphabet() -> Vec<Op> {
     let mut v = vec![];
     for id in [1u64, 2] {
-        v.extend([Op::CreateNode(id), Op::CreateEdge(id), Op::DeleteNode(id), Op::DeleteEdge(id), Op::UpdateNode(id), Op::UpdateEdge(id)]);
+        v.extend([Op::CreateNode(id), Op::CreateEdge(id), Op::DeleteNode(id), Op::DeleteEdge(id), Op::UpdateNode(id), Op::UpdateEdge(id), Op::UpdateNodeMulti(id), Op::UpdateEdgeMulti(id)]);
     }
     v
 }
 fn pm1(k: &str, v: i64) -> PropertyMap {
     let mut m = PropertyMap::new();
     m.insert(k.to_string(), PropertyValue::Integer(v));
+    m
+}
+fn pm2(k1: &str, v1: i64, k2: &str, v2: i64) -> PropertyMap {
+    let mut m = pm1(k1, v1);
+    m.insert(k2.to_string(), PropertyValue::Integer(v2));
     m
 }
 fn request(op: &Op) -> Request {
@@ -73,6 +81,8 @@ fn request(op: &Op) -> Request {
         Op::DeleteEdge(id) => Request::DeleteEdge { tenant, edge_id: *id },
         Op::UpdateNode(id) => Request::UpdateNodeProperties { tenant, node_id: *id, properties: pm1("p", 1), version: 0 },
         Op::UpdateEdge(id) => Request::UpdateEdgeProperties { tenant, edge_id: *id, properties: pm1("w", 1), version: 0 },
+        Op::UpdateNodeMulti(id) => Request::UpdateNodeProperties { tenant, node_id: *id, properties: pm2("p", 0, "q", 2), version: 0 },
+        Op::UpdateEdgeMulti(id) => Request::UpdateEdgeProperties { tenant, edge_id: *id, properties: pm2("w", 0, "v", 2), version: 0 },
     }
 }
 
@@ -108,6 +118,22 @@ impl G {
                 if !skip_updates {
                     if let Some(e) = self.edges.get_mut(id) {
                         e.3.insert("w".into(), 1);
+                    }
+                }
+            }
+            Op::UpdateNodeMulti(id) => {
+                if !skip_updates {
+                    if let Some(n) = self.nodes.get_mut(id) {
+                        n.1.insert("p".into(), 0);
+                        n.1.insert("q".into(), 2);
+                    }
+                }
+            }
+            Op::UpdateEdgeMulti(id) => {
+                if !skip_updates {
+                    if let Some(e) = self.edges.get_mut(id) {
+                        e.3.insert("w".into(), 0);
+                        e.3.insert("v".into(), 2);
                     }
                 }
             }
@@ -172,7 +198,7 @@ fn run_history(hist: &[Op], replicas: usize, verbose: bool) -> (Vec<(String, Str
                     (_, Response::Error { .. }) => true,
                     (Op::CreateNode(id), Response::NodeCreated { node_id }) => node_id == id,
                     (Op::CreateEdge(id), Response::EdgeCreated { edge_id }) => edge_id == id,
-                    (Op::DeleteNode(_) | Op::DeleteEdge(_) | Op::UpdateNode(_) | Op::UpdateEdge(_), Response::Ok) => true,
+                    (Op::DeleteNode(_) | Op::DeleteEdge(_) | Op::UpdateNode(_) | Op::UpdateEdge(_) | Op::UpdateNodeMulti(_) | Op::UpdateEdgeMulti(_), Response::Ok) => true,
                     _ => false,
                 };
                 if !shape_ok {
@@ -189,7 +215,7 @@ fn run_history(hist: &[Op], replicas: usize, verbose: bool) -> (Vec<(String, Str
             if !errs[0] {
                 model.apply(op, false);
                 model_noupd.apply(op, true);
-                if matches!(op, Op::UpdateNode(_) | Op::UpdateEdge(_)) {
+                if matches!(op, Op::UpdateNode(_) | Op::UpdateEdge(_) | Op::UpdateNodeMulti(_) | Op::UpdateEdgeMulti(_)) {
                     acked_updates.push(*op);
                 }
             }
@@ -321,8 +347,8 @@ fn explore_flat(m: &M, max_depth: usize, mut on_violation: impl FnMut(hx::Violat
 fn main() {
     run_check("C32", Level::ModelChecking, |ctx| {
         let (depth, replicas) = match ctx.tier {
-            svmc::Tier::Quick => (2, 2),
-            svmc::Tier::Thorough => (4, 3),
+            svmc::Tier::Quick => (3, 2),
+            svmc::Tier::Thorough => (5, 3),
         };
         if let Some(p) = ctx.replay.clone() {
             let doc: serde_json::Value = serde_json::from_str(&std::fs::read_to_string(&p).expect("read replay")).expect("json");
@@ -341,12 +367,12 @@ fn main() {
         let stats = explore_flat(&m, depth, |v| {
             ctx.violation(&v.sig, v.msg, json!({"history": v.history.iter().map(|o| format!("{:?}", o)).collect::<Vec<_>>(), "replicas": replicas}));
         });
-        hx::report(ctx, &stats, "Request::{CreateNode{p:0}, CreateEdge{1->2,w:0} (endpoints may be missing), DeleteNode, DeleteEdge, UpdateNodeProperties{p:1}, UpdateEdgeProperties{w:1}} x ids {1,2}");
+        hx::report(ctx, &stats, "Request::{CreateNode{p:0}, CreateEdge{1->2,w:0} (endpoints may be missing), DeleteNode, DeleteEdge, UpdateNodeProperties{p:1}, UpdateEdgeProperties{w:1}, UpdateNodeProperties{p:0,q:2}, UpdateEdgeProperties{w:0,v:2}} x ids {1,2}");
         ctx.cov("replicas", replicas as u64);
         println!("hx: {} states, {} transitions, depth {}", stats.states, stats.transitions, stats.max_depth);
         ctx.assume("every explored history is applied from scratch to fresh replicas, which are then closed, reopened and recovered; the dedup key is the reference state (the implementation keeps nothing else that recover can observe: usage counters stay far below the default quotas)");
         ctx.assume("re-creating an existing id replaces it; deleting or updating a missing id is answered without Error and has no effect; referential integrity is not part of the persistence-level model");
-        ctx.assume("updates set a key the entity already has, so the 'merge' and 'replace' readings of an update request coincide; wall-clock fields and versions are not compared");
+        ctx.assume("an update request merges its keys into the entity's properties (the state machine's documented read-modify-write); the two-key update repeats the creation value of one key and adds a new key; wall-clock fields and versions are not compared");
         let _ = std::fs::remove_dir_all(root());
     });
 }
